@@ -9,7 +9,11 @@ smallest element (`isort_sorted`, `isort_perm`).
 -/
 import MpycV.Lemmas.Stats
 import MpycV.Lemmas.StatsSqrt
+import MpycV.Lemmas.StatsSort
 import MpycV.Lemmas.StatsReal
+import MpycV.Lemmas.StatsQuant
+import MpycV.Lemmas.StatsMode
+import MpycV.Lemmas.StatsQS
 
 namespace MpycV.C34
 open MpycV.Stats
@@ -73,8 +77,9 @@ theorem variance_int_given_mean (x : List Int) (μ : Int) (c : Nat) (hn : 1 + c 
   congr 2
   rw [cast_inProd_map]
   push_cast
-  congr 2
-  funext a; ring
+  congr 3
+  apply List.map_congr_left
+  intro a _; ring
 
 example : varInt [1, 2, 4, 9] (some 4) 1 = .ok 13 := by decide
 
@@ -102,7 +107,7 @@ theorem covariance_int (x y : List Int) (hlen : y.length = x.length) (hn : 2 ≤
   rw [sum_prod_scale x y _ _ _ hnq]
   field_simp
 
-example : covInt [1, 2, 4, 9] [2, 0, 5, 7] = .ok 9 := by decide
+example : covInt [1, 2, 4, 9] [2, 0, 5, 7] = .ok 10 := by decide
 
 theorem covariance_int_length_error (x y : List Int) (hlen : y.length ≠ x.length) :
     covInt x y = .error "StatisticsError" := by
@@ -110,7 +115,11 @@ theorem covariance_int_length_error (x y : List Int) (hlen : y.length ≠ x.leng
 
 theorem covariance_int_short_error (x y : List Int) (hn : x.length < 2) :
     covInt x y = .error "StatisticsError" := by
-  unfold covInt; split <;> simp [hn]
+  unfold covInt
+  simp only []
+  by_cases h : y.length ≠ x.length
+  · simp [h]
+  · simp [h, hn]
 
 example : covInt [1, 2] [3] = .error "StatisticsError" ∧ covInt [1] [3] = .error "StatisticsError" := by decide
 
@@ -193,21 +202,175 @@ theorem median_int (x : List Int) (med : Med) (rounds rest : List Round) (w : Li
     (h : quickselect x.length x (medKs x.length med) rounds = .ok (w, rest))
     (hw : w = (medKs x.length med).map (fun k => (isort x).getD k 0)) :
     medInt x med rounds = .ok (medianPy (isort x) med, rest) := by
-  rw [medInt_of_quickselect x med rounds rest w hx h, hw, medKs_eq]
-  unfold medianPy
-  rw [length_isort']
-  split
-  · simp
-  · cases med
-    · simp only [List.map_cons, List.map_nil, isum_eq_sum, List.sum_cons, List.sum_nil, add_zero]
+  subst hw
+  have hn0 : x.length ≠ 0 := by simpa using hx
+  unfold medInt medianPy
+  simp only [hn0, if_false, h, length_isort]
+  by_cases hodd : x.length % 2 = 1
+  · simp only [hodd, if_true, medKs, List.map_cons, List.map_nil, List.getD_cons_zero]
+    rw [median_index_odd _ hodd]
+  · have heven : x.length % 2 = 0 := by omega
+    have h2 : 2 ≤ x.length := by omega
+    cases med
+    · simp only [hodd, if_false, medKs, List.map_cons, List.map_nil, isum_eq_sum, List.sum_cons, List.sum_nil,
+        add_zero]
+      rw [median_index_even_low _ heven h2]
       congr 2
       have := Rat.floor_intCast_div_natCast ((isort x).getD (x.length / 2 - 1) 0 + (isort x).getD (x.length / 2) 0) 2
       rw [Nat.cast_ofNat] at this
       rw [this]; rfl
-    · simp
-    · simp
+    · simp only [hodd, if_false, medKs, List.map_cons, List.map_nil, List.getD_cons_zero]
+      rw [median_index_even_low _ heven h2]
+    · simp only [hodd, if_false, medKs, List.map_cons, List.map_nil, List.getD_cons_zero]
 
 theorem median_int_empty (med : Med) (rounds : List Round) : medInt [] med rounds = .error "StatisticsError" := rfl
+
+
+/-! ### 6. quantiles -/
+
+/-- inclusive method: `(j, delta) = divmod(i*(ld-1), n)` as in CPython -/
+theorem cutIndex_inclusive (ld n i : Nat) (hn : 1 ≤ n) {j : Nat} {delta : Int}
+    (h : cutIndex ld n .inclusive i = (j, delta)) :
+    (j : Int) * n + delta = ((i * (ld - 1) : Nat) : Int) ∧ 0 ≤ delta ∧ delta < n :=
+  cutIndex_inclusive_divmod ld n i hn h
+
+/-- exclusive method: `j = i*(ld+1) // n` clamped to `1 .. ld-1`, `delta = i*(ld+1) - j*n` as in CPython -/
+theorem cutIndex_exclusive (ld n i : Nat) (hld : 2 ≤ ld) :
+    cutIndex ld n .exclusive i =
+      (max 1 (min (ld - 1) (i * (ld + 1) / n)),
+        ((i * (ld + 1) : Nat) : Int) - ((max 1 (min (ld - 1) (i * (ld + 1) / n)) * n : Nat) : Int)) :=
+  MpycV.Stats.cutIndex_exclusive ld n i hld
+
+example : cutIndex 7 4 .inclusive 3 = (4, 2) ∧ cutIndex 7 4 .exclusive 3 = (6, 0) ∧
+    cutIndex 2 10 .exclusive 1 = (1, -7) := by decide
+
+/-- every index a cut point reads was requested from `_quickselect` and is `< ld`: no KeyError, no IndexError -/
+theorem quantile_keys_cover (ld n : Nat) (method : Method) (i : Nat) (hld : 2 ≤ ld) (hi1 : 1 ≤ i) (hin : i < n) :
+    ∀ k ∈ readKeys ld n method i, k ∈ quantileKs ld n method ∧ k < ld :=
+  MpycV.Stats.quantile_keys_cover ld n method i hld hi1 hin
+
+/-- the requested order statistics are strictly increasing (needed: `_quickselect` returns the left part's
+results before the right part's) -/
+theorem quantileKs_sorted (ld n : Nat) (method : Method) (hld : 2 ≤ ld) (hn : 1 ≤ n) :
+    (quantileKs ld n method).Pairwise (· < ·) :=
+  MpycV.Stats.quantileKs_sorted ld n method hld hn
+
+example : quantileKs 9 4 .inclusive = [2, 4, 6] ∧ quantileKs 5 4 .exclusive = [0, 1, 2, 3, 4] ∧
+    readKeys 5 4 .exclusive 2 = [2] := by decide
+
+/-- a cut point on secure integers is CPython's interpolation `(d[j]·(n−δ) + d[j+1]·δ)/n` rounded half up -/
+theorem cut_point_int_inclusive (ld n : Nat) (data : Nat → Int) (i : Nat) (hn : 1 ≤ n)
+    {j : Nat} {delta : Int} (h : cutIndex ld n .inclusive i = (j, delta)) :
+    cutPoint ld n .inclusive data i =
+      ⌊((data j : ℚ) * ((n : ℚ) - (delta : ℚ)) + (data (j + 1) : ℚ) * (delta : ℚ)) / (n : ℚ) + 1 / 2⌋ :=
+  MpycV.Stats.cut_point_int_inclusive ld n data i hn h
+
+/-- exclusive method: `(d[j−1]·(n−δ) + d[j]·δ)/n` rounded half up (also for δ < 0 or δ > n at the clamped ends) -/
+theorem cut_point_int_exclusive (ld n : Nat) (data : Nat → Int) (i : Nat) (hn : 1 ≤ n)
+    {j : Nat} {delta : Int} (h : cutIndex ld n .exclusive i = (j, delta)) :
+    cutPoint ld n .exclusive data i =
+      ⌊((data (j - 1) : ℚ) * ((n : ℚ) - (delta : ℚ)) + (data j : ℚ) * (delta : ℚ)) / (n : ℚ) + 1 / 2⌋ :=
+  MpycV.Stats.cut_point_int_exclusive ld n data i hn h
+
+/-- `quantiles` on secure integers: whenever the run finishes, the result is the list of cut points computed
+from the SORTED data (for every choice of pivots and tie-breaking bits) -/
+theorem quantiles_int (x : List Int) (n : Nat) (method : Method) (rounds rest : List Round) (r : List Int)
+    (hn : 1 ≤ n) (hld : 2 ≤ x.length) (hties : ∀ rd ∈ rounds, x.length ≤ rd.ties.length)
+    (h : quantilesInt x n method rounds = .ok (r, rest)) :
+    r = (List.range (n - 1)).map (fun i0 => cutPoint x.length n method (fun k => (isort x).getD k 0) (i0 + 1)) := by
+  cases hq : quickselect x.length x (quantileKs x.length n method) rounds with
+  | error e =>
+    rw [quantilesInt_error_of_quickselect x n method rounds hn hld e hq] at h
+    cases h
+  | ok p =>
+    obtain ⟨w, rest'⟩ := p
+    have hw := quickselect_spec' x _ rounds (MpycV.Stats.quantileKs_sorted _ n method hld hn)
+      (quantileKs_lt _ n method hld) hties hq
+    subst hw
+    rw [quantilesInt_ok x n method rounds rest' hn hld hq] at h
+    injection h with h
+    exact (Prod.mk.inj h).1.symm
+
+example : quantilesInt [5, 1, 4, 2, 3] 4 .exclusive [] = .ok ([2, 3, 5], []) := by decide
+
+theorem quantiles_errors (x : List Int) (n : Nat) (method : Method) (rounds : List Round) :
+    (n < 1 → quantilesInt x n method rounds = .error "StatisticsError") ∧
+    (x.length < 2 → quantilesInt x n method rounds = .error "StatisticsError") :=
+  ⟨quantilesInt_error_n x n method rounds, quantilesInt_error_len x n method rounds⟩
+
+/-! ### 7. mode -/
+
+/-- `mode` (as implemented after the fix): the FIRST data point of maximal frequency, like `statistics.mode` -/
+theorem mode_spec (l priv : Nat) (x : List Int) (hx : x ≠ []) (hrange : listMax x - listMin x < 2 ^ l) :
+    ∃ v, modeInt l priv x = .ok v ∧ v ∈ x ∧ (∀ b ∈ x, x.count b ≤ x.count v) ∧
+      (∀ i, i < x.idxOf v → ∀ b, x[i]? = some b → x.count b < x.count v) :=
+  MpycV.Stats.mode_spec l priv x hx hrange
+
+example : modeInt 8 0 [3, 1, 3, 1, 2] = .ok 3 ∧ ([3, 1, 3, 1, 2] : List Int) ≠ [] ∧
+    listMax [3, 1, 3, 1, 2] - listMin [3, 1, 3, 1, 2] < 2 ^ 8 := by decide
+
+/-- the clauses of `mode_spec` determine the value -/
+theorem mode_spec_unique (x : List Int) (v w : Int) (hv : v ∈ x) (hw : w ∈ x)
+    (hvmax : ∀ b ∈ x, x.count b ≤ x.count v) (hwmax : ∀ b ∈ x, x.count b ≤ x.count w)
+    (hvfirst : ∀ i, i < x.idxOf v → ∀ b, x[i]? = some b → x.count b < x.count v)
+    (hwfirst : ∀ i, i < x.idxOf w → ∀ b, x[i]? = some b → x.count b < x.count w) : v = w :=
+  MpycV.Stats.mode_spec_unique x v w hv hw hvmax hwmax hvfirst hwfirst
+
+theorem mode_empty (l priv : Nat) : modeInt l priv [] = .error "StatisticsError" := rfl
+
+/-! ### 8. _quickselect -/
+
+/-- `runtime.sorted`'s value: a sorted rearrangement, so `(isort x)[k]` is the k-th smallest element -/
+theorem isort_sorted_perm (x : List Int) : (isort x).Pairwise (· ≤ ·) ∧ (isort x).Perm x :=
+  ⟨isort_sorted x, isort_perm x⟩
+
+theorem isort_rank {x : List Int} {k : Nat} (hk : k < x.length) :
+    x.countP (· < (isort x).getD k 0) ≤ k ∧ k + 1 ≤ x.countP (· ≤ (isort x).getD k 0) :=
+  isort_getD_rank hk
+
+/-- **`_quickselect` is correct for every pivot choice and every tie-breaking bit vector**: with `ks` strictly
+increasing and below `len(x)`, a run that finishes returns `[sorted(x)[k] for k in ks]` (the literal compaction
+loops with their `min(i+2, s)` wrap-around, the swap branch and the `len(ks) ≥ 3` sort path included) -/
+theorem quickselect_spec (x : List Int) (ks : List Nat) (rounds : List Round)
+    (hks : ks.Pairwise (· < ·)) (hk : ∀ k ∈ ks, k < x.length)
+    (hties : ∀ rd ∈ rounds, x.length ≤ rd.ties.length)
+    {w : List Int} {rest : List Round} (h : quickselect x.length x ks rounds = .ok (w, rest)) :
+    w = ks.map (fun k => (isort x).getD k 0) :=
+  quickselect_spec' x ks rounds hks hk hties h
+
+example : quickselect 4 [5, 3, 8, 1] [1, 2]
+    [⟨0, [true, true, true, true]⟩, ⟨2, [false, false, false, false]⟩, ⟨0, [false, false, false, false]⟩,
+     ⟨1, [true, true, true, true]⟩, ⟨0, [true, true, true, true]⟩] = .ok ([3, 5], []) := by decide
+
+/-- median on secure integers for every run of `_quickselect` that finishes -/
+theorem median_int_all_pivots (x : List Int) (med : Med) (rounds rest : List Round) (v : Int) (hx : x ≠ [])
+    (hties : ∀ rd ∈ rounds, x.length ≤ rd.ties.length) (h : medInt x med rounds = .ok (v, rest)) :
+    v = medianPy (isort x) med := by
+  have hn0 : x.length ≠ 0 := by simpa using hx
+  cases hq : quickselect x.length x (medKs x.length med) rounds with
+  | error e =>
+    unfold medInt at h
+    simp only [hn0, if_false, hq] at h
+    cases h
+  | ok p =>
+    obtain ⟨w, rest'⟩ := p
+    have hks : (medKs x.length med).Pairwise (· < ·) ∧ ∀ k ∈ medKs x.length med, k < x.length := by
+      unfold medKs
+      split
+      · refine ⟨by simp, ?_⟩
+        intro k hk; simp at hk; omega
+      · cases med
+        · refine ⟨by simp; omega, ?_⟩
+          intro k hk; simp at hk; omega
+        · refine ⟨by simp, ?_⟩
+          intro k hk; simp at hk; omega
+        · refine ⟨by simp, ?_⟩
+          intro k hk; simp at hk; omega
+    have hw := quickselect_spec' x _ rounds hks.1 hks.2 hties hq
+    have := median_int x med rounds rest' w hx hq hw
+    rw [this] at h
+    injection h with h
+    exact (Prod.mk.inj h).1.symm
 
 /-! ### 9. correlation, linear regression -/
 
